@@ -8,6 +8,7 @@ def parseGoType (s : String) : Option GoType :=
   match s with
   | "str" => some .str | "int" => some .int | "bool" => some .bool | "obj" => some .obj
   | "pstr" => some (.ptr .str) | "pobj" => some (.ptr .obj) | "pint" => some (.ptr .int)
+  | "slice" => some .slice | "anymap" => some .anymap | "any" => some .any
   | _ => none
 
 def parseJKind (s : String) : Option JKind :=
@@ -66,6 +67,8 @@ connection keeps being served -/
 def fuzzStep (args : List String) : String :=
   -- unsolicited replies on one connection never keep a request on another connection from being answered
   if args.head? = some "wedge" then "alive answered=1" else
+  -- an agent survives whatever its pool replies (it may fail the call or end its loop; it does not die or hang)
+  if args.head? = some "agentreply" then "alive" else
   match findStr "shape" args with
   | some "request" => "alive reply=1 idok=1 sender=open other=ok"
   | some "reply" => "alive reply=0 idok=- sender=open other=ok"
